@@ -7,6 +7,11 @@ _NOTE = ('Trusted: Lean 4.33.0 kernel; axioms propext/Classical.choice/Quot.soun
          'hash functions, refmt cbor decoding outside the canonical header subset, go-cid/go-multihash parsing as transcribed are parameters of the model. ')
 
 TEXT = {
+    'C12': {
+        'text': 'Kernel-checked: discard_reopen and finalize_reopen (for every state reachable through the invariant — any put history, any options — reopening the file after Discard, or after Finalize, with the same roots and options yields a store with the same file bytes (index cut off, header un-finalised), the same log, the writer at the same position and the same index records, so by the C04 refinement and C05 layout theorems every later result and the final bytes are those of the uninterrupted session); create_shape/put_shape (what an un-finalised session leaves on disk); refused_without_writes + reject_wrong_version / reject_wrong_padding / reject_wrong_roots (each mismatch is detected before the first mutation: no write event, file unchanged); rootsMatch_of_perm / rootsMatch_multiset (order ignored, multiplicity not). '
+                'The tie runs random interleavings and all single-field mismatches against real files and in-memory storage.',
+        'note': _NOTE + 'The byte-identity of the final file additionally uses that the flattened index does not depend on insertion order beyond equal digests (C11; tied differentially here: the final file is compared byte-for-byte on every case).',
+    },
     'C14': {
         'text': 'Kernel-checked by induction over the block list for an arbitrary infinite choice string: v1_any_choices and v2_any_choices (for every valid CARv1 / CARv2 with any padding and any trailing index, seekable or plain source, every interleaving of Next and SkipNext yields for block i either the block or metadata with Offset = payload offset of its length prefix, SourceOffset = 51 + padding + Offset, Size = data length, and a clean EOF exactly at the end of the payload window), visits_cids (same CID sequence for every choice string), skip_offset_is_index_offset (Offset is what an index records). Invariant: br.offset = true source offset (BRInv). '
                 'The tie drives the real BlockReader with choice strings over four source kinds and compares visits, EOF position and the byte count read from the wrapped source (never past DataOffset+DataSize).',
